@@ -545,7 +545,7 @@ func bits(rt *rapid.T, label string, pct ...int) byte {
 }
 
 // weighted state draw: the states that remember a negotiation get more cases
-var fsmStateWeights = []int{5, 5, 6, 8, 6, 8, 10, 10, 12, 30} // order of fsmStates
+var fsmStateWeights = []int{7, 7, 7, 8, 6, 8, 10, 10, 12, 30} // order of fsmStates
 
 func drawWeighted(rt *rapid.T, w []int, label string) int {
 	tot := 0
@@ -577,9 +577,9 @@ func genShape(rt *rapid.T, kind string) []byte {
 	case "ipcp":
 		mask = bits(rt, "peerOpt", 75, 45, 30, 20, 60, 40, 30, 20)
 	default:
-		mask = bits(rt, "peerOpt", 80, 20, 15, 50, 70, 20, 20, 50)
+		mask = bits(rt, "peerOpt", 65, 20, 15, 50, 65, 20, 20, 50)
 	}
 	variant := pick[byte](rt, "value", 0, 0, 0, 1, 2, 3) | bits(rt, "valueBits", 20, 10)<<2 | byte(uni(rt, 8, "nakValue"))<<4 | bits(rt, "viaRTA", 50)<<7
-	resp := pick[byte](rt, "answer", 0, 0, 0, 1, 2, 3, 4, 5, 6) | pick[byte](rt, "timeouts", 0, 0, 0, 1, 2, 3)<<3 | bits(rt, "flow", 50, 0, 25)<<5
+	resp := pick[byte](rt, "answer", 0, 0, 1, 2, 3, 4, 4, 4, 5, 5, 5, 6) | pick[byte](rt, "timeouts", 0, 0, 0, 1, 2, 3)<<3 | bits(rt, "flow", 50, 0, 25)<<5
 	return []byte{mode, mask, variant, byte(uni(rt, 120, "order")), resp, pick[byte](rt, "peerID", 1, 2, 7, 0, 250, 255)}
 }
